@@ -14,7 +14,7 @@ BOUNDS = dict(quick='arm lengths 3..5 segments each, spacing patterns over {1,2,
               thorough='arm lengths 3..7, 12 spacing patterns per shape')
 ASSUMPTIONS = ['exact real arithmetic (T1): slopes/offsets are arbitrary reals, a superset of the dyadic grid in the statement; rounding of the divisions is outside',
                'm1 != m2; Kneedle: m1*m2 >= 0 and not both zero... (monotone elbow with non-zero net slope)']
-CONFIG = dict(quick=dict(budget_s=170, case_wall_s=120, qtimeout_ms=15000), thorough=dict(budget_s=1750, case_wall_s=900, qtimeout_ms=60000))
+CONFIG = dict(quick=dict(budget_s=170, case_wall_s=120, qtimeout_ms=15000), thorough=dict(budget_s=900, case_wall_s=600, qtimeout_ms=60000))
 DETECTORS = ['curvature', 'dfdt', 'menger', 'kneedle', 'lmethod']
 
 
